@@ -90,6 +90,8 @@ def main():
                 e = out.setdefault(key, dict(key=key, invariant=reason, configs=[]))
                 if cfg not in e['configs']:
                     e['configs'].append(cfg)
+                if s['kind'] == 'panic':
+                    e.setdefault('when', {})[cfg] = s.get('when')
     for k, w in unmatched:
         print('UNMATCHED', w, k[:220])
     json.dump(sorted(out.values(), key=lambda e: e['key']), open('/verif/spec/vetted_sites.json', 'w'), indent=1)
